@@ -54,9 +54,11 @@ from .asttypes import (
     AST,
     Add,
     And,
+    AnnAssign,
     AsyncFor,
     AsyncFunctionDef,
     AsyncWith,
+    Attribute,
     AugAssign,
     BitAnd,
     BitOr,
@@ -113,7 +115,9 @@ from .asttypes import (
     Starred,
     Store,
     Sub,
+    Subscript,
     Tuple,
+    TypeAlias,
     TypeIgnore,
     UAdd,
     USub,
@@ -3612,6 +3616,28 @@ class FST:
 
             self._parenthesize_grouping(whole)
 
+            above = self
+
+            while parent := above.parent:  # parentheses in the target of an AnnAssign
+                parent_cls = parent.a.__class__
+                field = above.pfield.name
+
+                if parent_cls is AnnAssign:
+                    if field == 'target':
+                        if above is not self:
+                            if not above.pars().n:
+                                above._parenthesize_grouping()  # `(a).b: int` is an illegal target for annotation, `((a).b): int` is fine
+
+                        elif ast_cls is Name:
+                            parent.a.simple = 0  # a parenthesized Name target is not simple
+
+                    break
+
+                if field != 'value' or parent_cls not in (Attribute, Subscript):
+                    break
+
+                above = parent
+
         return self
 
     def unpar(self, node: bool | Literal['invalid'] = False, *, shared: bool | None = True) -> FST:  # -> self
@@ -3728,6 +3754,9 @@ class FST:
                 modifying = self._modifying().enter()
 
                 self._unparenthesize_grouping(shared)
+
+                if ast_cls is Name and (parent := self.parent) and parent.a.__class__ is AnnAssign and self.pfield.name == 'target':
+                    parent.a.simple = 1  # a bare Name target is simple
 
             if node:
                 if ast_cls in (Tuple, MatchSequence) or (node == 'invalid' and ast_cls in ASTS_LEAF_DELIMITED):
@@ -4954,7 +4983,7 @@ class FST:
         ast_cls = self.a.__class__
 
         if ast_cls not in ASTS_LEAF_EXPR:
-            return ast_cls in ASTS_LEAF_PATTERN
+            return ast_cls in ASTS_LEAF_PATTERN and ast_cls is not MatchStar
 
         if ast_cls in (
             (Slice, FormattedValue, Interpolation)
@@ -4963,9 +4992,19 @@ class FST:
         ):
             return False
 
+        if ast_cls is Tuple and any(e.__class__ is Slice for e in self.a.elts):  # only lives unparenthesized in a Subscript.slice
+            return False
+
         if parent := self.parent:
-            if ast_cls is Constant and parent.a.__class__ in ASTS_LEAF_FTSTR:
+            parent_cls = parent.a.__class__
+            field = self.pfield.name
+
+            if ast_cls is Constant and parent_cls in ASTS_LEAF_FTSTR:
                 return False
+
+            if field == 'format_spec' or (field == 'name' and parent_cls is TypeAlias):
+                return False
+
 
             while True:
                 ast_cls = parent.a.__class__
